@@ -123,13 +123,15 @@ IdleWait(t) == \/ t.status = "timed-wait"
 \* a thread parked in one of SyncCrazyflie's own event waits (judged through `pending`)
 InWrapperWait(t) == t.status = "blocked" /\ t.op = "event.wait" /\ t.file = "syncCrazyflie.py"
 
-QuietClause(q) ==
+\* stim: the last attempt saw a link-error report or a close_link call ("whenever the link driver reports an
+\* error or the application closes the link ... the library reaches the disconnected state")
+QuietClause(q, stim) ==
     IF \E i \in DOMAIN q.threads : q.threads[i].status = "dead" THEN "ThreadDied"
     ELSE IF q.disp_alive = 0 THEN "ThreadDied"
     ELSE IF \E i \in DOMAIN q.threads : ~IdleWait(q.threads[i]) /\ ~InWrapperWait(q.threads[i]) THEN "Deadlock"
     ELSE IF \E i \in DOMAIN q.pending : q.pending[i].kind \in {"sopen", "sclose"} THEN "SyncCallHangs"
     ELSE IF \E i \in DOMAIN q.pending : q.pending[i].kind \in {"open", "close"} THEN "Deadlock"
-    ELSE IF q.state # 0 THEN "NotDisconnected"
+    ELSE IF stim /\ q.state # 0 THEN "NotDisconnected"
     ELSE "ok"
 
 \* ---- epilogue: the same object connects again -----------------------------------------------------
